@@ -565,7 +565,7 @@ func (fn FirstValue) CheckArgsLen(expr parser.AnalyticFunction) error {
 }
 
 func (fn FirstValue) Execute(ctx context.Context, scope *ReferenceScope, partition Partition, expr parser.AnalyticFunction) (map[int]value.Primary, error) {
-	return setNthValue(ctx, scope, partition, expr, 1)
+	return setNthValue(ctx, scope, partition, expr, 1, false)
 }
 
 type LastValue struct{}
@@ -575,8 +575,12 @@ func (fn LastValue) CheckArgsLen(expr parser.AnalyticFunction) error {
 }
 
 func (fn LastValue) Execute(ctx context.Context, scope *ReferenceScope, partition Partition, expr parser.AnalyticFunction) (map[int]value.Primary, error) {
-	partition.Reverse()
-	return setNthValue(ctx, scope, partition, expr, 1)
+	if expr.AnalyticClause.WindowingClause == nil {
+		partition.Reverse()
+		return setNthValue(ctx, scope, partition, expr, 1, false)
+	}
+	// With an explicit window frame, take the last value of each row's own frame.
+	return setNthValue(ctx, scope, partition, expr, 1, true)
 }
 
 type NthValue struct{}
@@ -601,10 +605,10 @@ func (fn NthValue) Execute(ctx context.Context, scope *ReferenceScope, partition
 		return nil, NewFunctionInvalidArgumentError(expr, expr.Name, "the second argument must be greater than 0")
 	}
 
-	return setNthValue(ctx, scope, partition, expr, n)
+	return setNthValue(ctx, scope, partition, expr, n, false)
 }
 
-func setNthValue(ctx context.Context, scope *ReferenceScope, partition Partition, expr parser.AnalyticFunction, n int) (map[int]value.Primary, error) {
+func setNthValue(ctx context.Context, scope *ReferenceScope, partition Partition, expr parser.AnalyticFunction, n int, fromLast bool) (map[int]value.Primary, error) {
 	frameSet := WindowFrameSet(partition, expr.AnalyticClause)
 	list := make(map[int]value.Primary, len(partition))
 
@@ -615,7 +619,11 @@ func setNthValue(ctx context.Context, scope *ReferenceScope, partition Partition
 		var val value.Primary = value.NewNull()
 		count := 0
 
-		for i := frame.Low; i <= frame.High; i++ {
+		for pos := frame.Low; pos <= frame.High; pos++ {
+			i := pos
+			if fromLast {
+				i = frame.High - (pos - frame.Low)
+			}
 			if i < 0 || len(partition) <= i {
 				continue
 			}
